@@ -7,6 +7,7 @@
 //         V <W> dV <W|EXC>                                  A.Reverse()
 //         N <W> dN <W|EXC>                                  A.RemoveUnreachableStates()
 //         L <W> dL <W|EXC>                                  A.RemoveUselessStates()
+//         NM <W> LM <W> VM <W>                              RemoveUnreachableStates / RemoveUselessStates / Reverse with the optional translation map (one map re-used)
 //         C <W> dC <W|EXC>                                  A.GetCandidateTree()
 //         K <W>*10                                          composed operations (see below), read through the object
 //         I <W> <W>                                         the operands re-read after all calls
@@ -54,6 +55,11 @@ int main() {
 			FA v = a.Reverse(); os << " V " << showW(obsNfa(v)) << " dV " << dumpObs(v);
 			{ FA n = a.RemoveUnreachableStates(); os << " N " << showW(obsNfa(n)) << " dN " << dumpObs(n); }
 			FA l = a.RemoveUselessStates(); os << " L " << showW(obsNfa(l)) << " dL " << dumpObs(l);
+			{	// the same operations with the optional translation map (one map handed to all three calls: a caller re-using its map)
+				VATA::AutBase::StateToStateMap tm;
+				FA nm = a.RemoveUnreachableStates(&tm); FA lm = a.RemoveUselessStates(&tm); FA vm = a.Reverse(&tm);
+				os << " NM " << showW(obsNfa(nm)) << " LM " << showW(obsNfa(lm)) << " VM " << showW(obsNfa(vm));
+			}
 			FA c = a.GetCandidateTree(); os << " C " << showW(obsNfa(c)) << " dC " << dumpObs(c);
 			{	// composed operations: results of one operation as operands of the next (multi-step sequences)
 				FA x = FA::Intersection(a, b); FA vb = b.Reverse();
